@@ -22,19 +22,19 @@ type Prog struct {
 
 // RunReq asks the runner to decode one document into one type.
 type RunReq struct {
-	Prog int
-	Type string
-	Wire string // "J" or "Y"
-	Doc  string // JSON text (also fed to yaml.Unmarshal, YAML being a superset)
+	Prog  int
+	Type  string
+	Wire  string // "J" or "Y"
+	Doc   string // JSON text (also fed to yaml.Unmarshal, YAML being a superset)
 	Prior string // optional: a document decoded first into the same destination (C19); "" = fresh value
 }
 
 // RunRes is the runner's answer.
 type RunRes struct {
-	Kind   string // ok | reject | panic | missing
-	Canon  string // canonical re-marshal when ok
-	Msg    string // error / panic message
-	After  string // canonical re-marshal of the destination after the call (only with Prior)
+	Kind  string // ok | reject | panic | missing
+	Canon string // canonical re-marshal when ok
+	Msg   string // error / panic message
+	After string // canonical re-marshal of the destination after the call (only with Prior)
 }
 
 // Batch compiles many emitted packages into one binary and runs documents through them.
@@ -263,7 +263,12 @@ func (b *Batch) Build() error {
 		reg.WriteString("package main\n\nimport (\n")
 		n := 0
 		for _, p := range b.Progs {
-			if _, bad := b.CompileFail[p.ID]; bad || len(p.Types) == 0 {
+			if _, bad := b.CompileFail[p.ID]; bad {
+				continue
+			}
+			if len(p.Types) == 0 {
+				// nothing to decode into (e.g. --only-models), but the package must still compile
+				fmt.Fprintf(&reg, "\t_ \"run/p%d\"\n", p.ID)
 				continue
 			}
 			fmt.Fprintf(&reg, "\tp%d \"run/p%d\"\n", p.ID, p.ID)
